@@ -34,3 +34,14 @@ prepare_C12() {
   prepare_default || return 1
   if [ "$MODE" = thorough ]; then build_race; build_asan; fi
 }
+
+build_server() { # build_server <out> [flags]: the real REST binary from the working tree (workspace mode links the working-tree library)
+  local out=$1; shift
+  (cd "$REPO/internal/app" && GOFLAGS= "$GO_BIN" build $OVL "$@" -o "$out" ./cmd) 2>>"$S/build.err" || { cat "$S/build.err" >&2; return 1; }
+}
+prepare_C18() {
+  prepare_default && build_server "$S/server" && export VERIF_SERVER_BIN=$S/server || return 1
+  if [ "$MODE" = thorough ]; then build_server "$S/server.race" -race && export VERIF_SERVER_RACE_BIN=$S/server.race; fi
+  return 0
+}
+prepare_C19() { prepare_C18; }
